@@ -109,7 +109,7 @@ MANIFEST = dict(
          "all plain), C19_descendant_tail_lists_agrees (= tailOf when no node called name is a list), "
          "C19_descendant_tail_lists_positions / _iff / _iff_list_root (found iff the node at a position ...name, any number of list "
          "indexes, sub - getAt, both inclusions). "
-         "C19_descendant_tail_n (+_distinct, _ref; Proofs/FindAllTailN.lean): a tail of ANY length, '//*/name/s1/.../sk' (k >= 0, "
+         "C19_descendant_tail_n (+_distinct, _ref, _positions, _iff - found iff the node at a position ending with the keys name, s1..sk; Proofs/FindAllTailN.lean): a tail of ANY length, '//*/name/s1/.../sk' (k >= 0, "
          "plain names) on a dict root with KeysOkV, ContOkV and no entry called like a non-final step being a list (NnlsV): exactly "
          "tailN subs (descV name root) - tailOf iterated along the tail, = the walk along the keys through dictionaries below every "
          "node called name - canonical xpaths, document order, no key twice, unbounded in size, depth and k; a walk that meets a "
